@@ -3566,7 +3566,13 @@ Hgetntinfo(const int32 numbertype, hdf_ntinfo_t *nt_info)
 int
 hi_close_stdio(FILE **f)
 {
-    int status = fclose(*f);
+    int status;
+
+    /* nothing to close (e.g. the open had failed) */
+    if (*f == NULL)
+        return FAIL;
+
+    status = fclose(*f);
 
     /* the stream is gone whether or not fclose reported an error (C11 7.21.5.1):
        never keep the pointer, closing or using it again is undefined */
